@@ -133,7 +133,9 @@ class ProcComm:
             for d in range(self._size):
                 if d != root:
                     self._cs[d].send_bytes(pickle.dumps((tag, raw)))
-            return obj                     # like mpi4py: the root keeps its own object
+            # like mpi4py (msgpickle: dosend and dorecv are both set on the root of an intracommunicator): the root
+            # also returns the object unpickled from the message, not its own object
+            return pickle.loads(raw)
         t, payload = pickle.loads(self._wait(self._cr[root], "bcast(root=%d)" % root))
         if t != tag:
             raise RuntimeError("collective mismatch on rank %d: got %s, expected %s" % (self._rank, t, tag))
